@@ -494,7 +494,7 @@ def rule_r4(text, rules):
         rules.append("R4")
 
 def rule_r17(text, rules):
-    """for PAT in E.iter_mut() { B }  with PAT a struct pattern  ->  for __xK in E.iter_mut() { let PAT = __xK; B }
+    """for PAT in E.iter_mut() { B }  with PAT a struct or tuple pattern  ->  for __xK in E.iter_mut() { let PAT = __xK; B }
     (Verus: the loop variable of a for-loop is also used in spec mode, where `&mut` bindings in patterns are refused)"""
     k = 0
     while True:
@@ -508,7 +508,7 @@ def rule_r17(text, rules):
             while True:
                 y = st[j]
                 if y.kind == "punct" and y.text in OPEN:
-                    if y.text == "{": has_brace = True
+                    if y.text in ("{", "("): has_brace = True
                     j = match_close(st, j) + 1; continue
                 if y.kind == "ident" and y.text == "in": break
                 j += 1
@@ -750,10 +750,22 @@ def extract_item(path, selector, opts, directives, findings_open):
             lo, hi = nf.start - start, nf.end - start
             if r_lo <= lo and hi <= r_hi: cuts.append((lo - r_lo, hi - r_lo, ""))
         region = apply_edits(region, cuts)
+        # a statement nested in the region that is a region of its own (verified separately against the same text) is replaced
+        # by a call to its synthetic function
+        for (anc, repl) in rg.get("calls", []):
+            nn = region.count(anc)
+            if nn != 1: raise ExtractError("anchor lost: region-call %r occurs %d times in the region of %s %s" % (anc[:40], nn, path, selector))
+            a2 = region.index(anc)
+            t2, st2 = _sig_with_index(region)
+            i2 = next((i for i, t in enumerate(st2) if t.start == a2), None)
+            if i2 is None or not _stmt_start(st2, i2):
+                raise ExtractError("region-call anchor is not the first token of a statement in %s %s" % (path, selector))
+            c2 = _stmt_extent(st2, i2)
+            region = region[:st2[i2].start] + repl + region[st2[c2].end:]
         pc.span = [start + r_lo, start + r_hi]
         pc.orig = orig[r_lo:r_hi]
         pc.sha256 = hashlib.sha256(pc.orig.encode()).hexdigest()
-        pc.region = {"header": rg["as"], "prologue": rg.get("prologue", ""), "epilogue": rg.get("epilogue", ""), "nested_fns_cut": len(cuts)}
+        pc.region = {"header": rg["as"], "prologue": rg.get("prologue", ""), "epilogue": rg.get("epilogue", ""), "nested_fns_cut": len(cuts), "nested_regions_called": [{"anchor": a, "call": r} for a, r in rg.get("calls", [])]}
         text = "%s\n{\n%s\n%s\n%s\n}" % (rg["as"], rg.get("prologue", ""), region, rg.get("epilogue", ""))
         rules.append("R16")
     # attributes: types keep their derive attributes (R2 edits), everything else dropped
@@ -1071,6 +1083,11 @@ def generate(spec_path, open_findings=(), auto_helpers=()):
                             q, _r = _parse_quoted(d2[len("region-start "):]); directives.setdefault("region", {})["start"] = q
                         elif d2.startswith("region-end "):
                             q, _r = _parse_quoted(d2[len("region-end "):]); directives.setdefault("region", {})["end"] = q
+                        elif d2.startswith("region-call "):
+                            a_, rest_ = _parse_quoted(d2[len("region-call "):])
+                            if not rest_.startswith("=>"): raise ExtractError("bad region-call: %s" % d2)
+                            b_, _r = _parse_quoted(rest_[2:])
+                            directives.setdefault("region", {}).setdefault("calls", []).append((a_, b_))
                         elif d2.startswith("region-as "): directives.setdefault("region", {})["as"] = d2[len("region-as "):].strip()
                         elif d2.startswith("region-prologue "): directives.setdefault("region", {})["prologue"] = d2[len("region-prologue "):].strip()
                         elif d2.startswith("region-epilogue "): directives.setdefault("region", {})["epilogue"] = d2[len("region-epilogue "):].strip()
